@@ -455,12 +455,14 @@ class Interp(object):
         it = self.eval(s.iter)
         seq = self.models.iterate(self, it, s)
         broke = False
-        for x in seq:
+        for i_, x in enumerate(seq):
+            self.emit('for-iter', s, {'index': i_, 'of': len(seq)})
             self.assign(s.target, x, s)
             try:
                 self.exec_block(s.body)
             except _Break:
                 broke = True
+                self.emit('for-break', s, {'index': i_})
                 break
             except _Continue:
                 continue
@@ -884,6 +886,14 @@ class Interp(object):
 
     # -- truth -------------------------------------------------------------------
     def truth(self, v, node):
+        rec = getattr(self, 'truth_sites', None)
+        if rec is not None and node is not None and self.frames:
+            k = kind_of(v)
+            rec.setdefault((self.frames[-1].fi.qualname, id(node)), [node, set(), self.frames[-1].fi])[1].update(
+                k if k is not None else {'?'})
+            if isinstance(v, Unk) and v.only('int', 'bool') and not any(
+                    str(f).startswith(('>=1', '>0', '>=2')) for f in v.facts):
+                rec[(self.frames[-1].fi.qualname, id(node))][1].add('int-maybe-0')
         if isinstance(v, bool):
             return v
         cv = concrete(v)
